@@ -2037,7 +2037,25 @@ involves_protected(CPPType *type) {
 
   default:
     if (type->_declaration != nullptr) {
-      return (type->_declaration->_vis > V_public);
+      if (type->_declaration->_vis > V_public) {
+        return true;
+      }
+    }
+    {
+      // A type nested within a protected or private class cannot be named
+      // from outside either, whatever its own visibility within that class.
+      CPPExtensionType *ext_type = type->as_extension_type();
+      if (ext_type != nullptr && ext_type->_ident != nullptr) {
+        CPPScope *scope = ext_type->_ident->get_scope(&parser, &parser);
+        while (scope != nullptr && scope->get_struct_type() != nullptr) {
+          CPPStructType *outer = scope->get_struct_type();
+          if (outer->_declaration != nullptr &&
+              outer->_declaration->_vis > V_public) {
+            return true;
+          }
+          scope = scope->get_parent_scope();
+        }
+      }
     }
     return false;
   }
